@@ -1,5 +1,6 @@
 """C10 gcd in Z[x] (src/resultant.rs:34-73, resultant_gcd)."""
 from math import gcd
+import lib
 from lib import line, Id, Case
 from props import res_common as R
 
@@ -48,6 +49,8 @@ def o_gcd(f, g):
         if R.deg(d) != R.deg(f) + R.deg(g) - rk: return 'gcd(%s, %s) = %s: degree %d but deg f + deg g - rank Sylvester = %d' % (f, g, d, R.deg(d), R.deg(f) + R.deg(g) - rk)
         return None
     return orc
+
+PROFILES = ('debug', 'release')
 
 def cases(rng, tier):
     th = tier == 'thorough'
@@ -139,4 +142,6 @@ def cases(rng, tier):
     s = Case('resultant_gcd', line('resultant_gcd', [1], [1]), model=line('resultant_gcd_x', [1], [1]), compare=cmpf, nontrivial=False, tag='flag-count')
     fc.sentinel = s
     out.append(s)
+    # a slice of the cases again on the release build of the implementation (wrapping arithmetic, debug assertions off)
+    out += lib.release_slice(out, rng, 0.08, mode_ops=())
     return out
